@@ -5,6 +5,7 @@ import (
 	"go/token"
 	"go/types"
 	"sort"
+	"strings"
 
 	"golang.org/x/tools/go/ssa"
 )
@@ -15,14 +16,31 @@ import (
 func (ex *Exec) modifiedIn(li *loopInfo) (cells map[*ssa.Alloc]bool, heaps map[string]bool) {
 	cells = map[*ssa.Alloc]bool{}
 	heaps = map[string]bool{}
+	add := func(name string, s Sort) {
+		heaps[name] = true
+		ex.noteHeap(name, s)
+	}
+	addMap := func(mt *types.Map) {
+		vs := sortOf(mt.Elem())
+		add(mapDomName(vs), ArrS(SInt, ArrS(SInt, SBool)))
+		add(mapValName(vs), ArrS(SInt, ArrS(SInt, vs)))
+	}
+	addArr := func(et types.Type) {
+		es := sortOf(et)
+		add(heapArrName(es), ArrS(SInt, ArrS(SInt, es)))
+	}
+	addTrace := func() {
+		add("$tr", ArrS(SInt, SEvent))
+		add("$trlen", SInt)
+	}
 	addAddr := func(a ssa.Value) {
 		switch x := a.(type) {
 		case *ssa.Alloc:
 			cells[x] = true
 		case *ssa.FieldAddr:
 			st, named, ok := derefStruct(x.X.Type())
-			if ok {
-				heaps[heapFieldName(named, st.Field(x.Field).Name())] = true
+			if ok && !isStructVal(st.Field(x.Field).Type()) {
+				add(heapFieldName(named, st.Field(x.Field).Name()), ArrS(SInt, sortOf(st.Field(x.Field).Type())))
 			}
 		case *ssa.IndexAddr:
 			var et types.Type
@@ -33,10 +51,10 @@ func (ex *Exec) modifiedIn(li *loopInfo) (cells map[*ssa.Alloc]bool, heaps map[s
 				et = t.Elem().Underlying().(*types.Array).Elem()
 			}
 			if et != nil {
-				heaps[heapArrName(sortOf(et))] = true
+				addArr(et)
 			}
 		case *ssa.Global:
-			heaps["G."+x.Pkg.Pkg.Name()+"."+x.Name()] = true
+			add("G."+x.Pkg.Pkg.Name()+"."+x.Name(), sortOf(x.Type().(*types.Pointer).Elem()))
 		}
 	}
 	for b := range li.blocks {
@@ -50,45 +68,35 @@ func (ex *Exec) modifiedIn(li *loopInfo) (cells map[*ssa.Alloc]bool, heaps map[s
 				}
 			case *ssa.Alloc:
 				if isStructVal(x.Type().(*types.Pointer).Elem()) || isArrayT(x.Type().(*types.Pointer).Elem()) {
-					heaps["$nextref"] = true
+					add("$nextref", SInt)
 					ex.allFieldHeaps(x.Type().(*types.Pointer).Elem(), heaps)
 					if at, ok := x.Type().(*types.Pointer).Elem().Underlying().(*types.Array); ok {
-						heaps[heapArrName(sortOf(at.Elem()))] = true
+						addArr(at.Elem())
 					}
 				}
 			case *ssa.MapUpdate:
-				mt := x.Map.Type().Underlying().(*types.Map)
-				heaps[mapDomName(sortOf(mt.Elem()))] = true
-				heaps[mapValName(sortOf(mt.Elem()))] = true
+				addMap(x.Map.Type().Underlying().(*types.Map))
 			case *ssa.MakeSlice:
-				heaps["$nextref"] = true
-				heaps[heapArrName(sortOf(x.Type().Underlying().(*types.Slice).Elem()))] = true
+				add("$nextref", SInt)
+				addArr(x.Type().Underlying().(*types.Slice).Elem())
 			case *ssa.MakeMap:
-				heaps["$nextref"] = true
-				mt := x.Type().Underlying().(*types.Map)
-				heaps[mapDomName(sortOf(mt.Elem()))] = true
-				heaps[mapValName(sortOf(mt.Elem()))] = true
+				add("$nextref", SInt)
+				addMap(x.Type().Underlying().(*types.Map))
 			case *ssa.MakeChan, *ssa.MakeClosure:
-				heaps["$nextref"] = true
+				add("$nextref", SInt)
 			case *ssa.Send, *ssa.Select, *ssa.Go:
-				heaps["$tr"] = true
-				heaps["$trlen"] = true
+				addTrace()
 				if g, ok := x.(*ssa.Go); ok {
 					ex.callEffects(g.Common(), heaps)
 				}
 			case *ssa.UnOp:
 				if x.Op == token.ARROW {
-					heaps["$tr"] = true
-					heaps["$trlen"] = true
+					addTrace()
 				}
 			case *ssa.Next:
-				if name, ok := ex.iterName[x.Iter]; ok {
-					heaps[name] = true
-				} else {
-					heaps[ex.iterHeapName(x.Iter)] = true
-				}
+				add(ex.iterHeapName(x.Iter), ArrS(SInt, SBool))
 			case *ssa.Range:
-				heaps[ex.iterHeapName(x)] = true
+				add(ex.iterHeapName(x), ArrS(SInt, SBool))
 			case *ssa.Call:
 				ex.callEffects(x.Common(), heaps)
 			case *ssa.Defer:
@@ -122,28 +130,42 @@ func (ex *Exec) allFieldHeaps(t types.Type, heaps map[string]bool) {
 		if isStructVal(f.Type()) {
 			ex.allFieldHeaps(f.Type(), heaps)
 		} else {
+			s := sortOf(f.Type())
+			if strings.HasPrefix(string(s), "UNSUPPORTED") || s == "TUPLE" {
+				continue
+			}
 			heaps[heapFieldName(t, f.Name())] = true
+			ex.noteHeap(heapFieldName(t, f.Name()), ArrS(SInt, s))
 		}
 	}
 	heaps["$held"] = true
+	ex.noteHeap("$held", ArrS(SInt, SInt))
 	heaps["$wg"] = true
+	ex.noteHeap("$wg", ArrS(SInt, SInt))
 }
 
 // callEffects adds the heap components a call may modify, per its contract.
 func (ex *Exec) callEffects(c *ssa.CallCommon, heaps map[string]bool) {
 	if b, ok := c.Value.(*ssa.Builtin); ok {
 		switch b.Name() {
-		case "append":
-			heaps["$nextref"] = true
-			heaps[heapArrName(sortOf(c.Args[0].Type().Underlying().(*types.Slice).Elem()))] = true
-		case "copy":
-			heaps[heapArrName(sortOf(c.Args[0].Type().Underlying().(*types.Slice).Elem()))] = true
+		case "append", "copy":
+			if b.Name() == "append" {
+				heaps["$nextref"] = true
+				ex.noteHeap("$nextref", SInt)
+			}
+			es := sortOf(c.Args[0].Type().Underlying().(*types.Slice).Elem())
+			heaps[heapArrName(es)] = true
+			ex.noteHeap(heapArrName(es), ArrS(SInt, ArrS(SInt, es)))
 		case "delete":
 			mt := c.Args[0].Type().Underlying().(*types.Map)
-			heaps[mapDomName(sortOf(mt.Elem()))] = true
-			heaps[mapValName(sortOf(mt.Elem()))] = true
+			vs := sortOf(mt.Elem())
+			heaps[mapDomName(vs)] = true
+			heaps[mapValName(vs)] = true
+			ex.noteHeap(mapDomName(vs), ArrS(SInt, ArrS(SInt, SBool)))
+			ex.noteHeap(mapValName(vs), ArrS(SInt, ArrS(SInt, vs)))
 		case "recover":
 			heaps["$panicking"] = true
+			ex.noteHeap("$panicking", SBool)
 		}
 		return
 	}
@@ -224,19 +246,16 @@ func (ex *Exec) enterLoop(li *loopInfo) {
 	preNext := ex.getHeap(ex.cur, "$nextref", SInt)
 	preTrlen := ex.getHeap(ex.cur, "$trlen", SInt)
 	preTr := ex.getHeap(ex.cur, "$tr", ArrS(SInt, SEvent))
+	li.lateHavoc = map[string]bool{}
 	for _, h := range hs {
 		s, ok := ex.heapSort[h]
 		if !ok {
-			// never touched yet: materialise its initial value to learn the sort lazily
+			ex.fail("internal: loop %d: sort of modified heap component %s unknown", li.ordinal, h)
+			li.lateHavoc[h] = true
 			continue
 		}
+		ex.getHeap(ex.cur, h, s) // materialise the entry-state constant
 		ex.cur.heap[h] = ex.D.Fresh(h+"@loop", s)
-	}
-	li.lateHavoc = map[string]bool{}
-	for _, h := range hs {
-		if _, ok := ex.heapSort[h]; !ok {
-			li.lateHavoc[h] = true
-		}
 	}
 	// built-in monotonicity facts that every loop preserves
 	headReach := ex.D.Fresh(fmt.Sprintf("r.loop%d", li.ordinal), SBool)
@@ -253,6 +272,12 @@ func (ex *Exec) enterLoop(li *loopInfo) {
 		k := BV("k!t", SInt)
 		ex.assume(Forall([]BVar{{"k!t", SInt}}, Imp(And(Le(IntLit(0), k), Lt(k, preTrlen)),
 			Eq(Select(ex.getHeap(ex.cur, "$tr", ArrS(SInt, SEvent)), k), Select(preTr, k)))))
+	}
+	// the SSA range counter only ever counts up from -1
+	if a := ex.rangeIndexOf(li); a != nil {
+		if v, ok := ex.cur.cells[a]; ok && v.T != nil {
+			ex.assume(Ge(v.T, IntLit(-1)))
+		}
 	}
 	// havoc ghost loop variables
 	for name, v := range entryGhost {
